@@ -145,7 +145,18 @@ class Real:
         return self
 
     def stop(self):
-        self.srv.stop()
+        """never lets a slow shutdown (loaded host) decide the verdict"""
+        try:
+            self.srv.stop()
+        except Exception:
+            pass
+        p = self.srv.proc
+        if p is not None and p.poll() is None:
+            try:
+                p.kill()
+                p.wait(120)
+            except Exception:
+                pass
 
     # ---- mapping model ids -> concrete names of this behaviour
     def begin(self, bid):
@@ -435,7 +446,7 @@ def run():
         "@sql, @transaction, the tables list and ?transaction= requests are not driven"]
     with vf.scratch() as sd:
         nsrv = 8 if thorough else 4
-        nbeh = (8 * 150) if thorough else 64
+        nbeh = (8 * 120) if thorough else 64
         depth = 60 if thorough else 40
         ngen = 8 if thorough else 1
         pool = ThreadPoolExecutor(max_workers=14)
